@@ -63,6 +63,10 @@ DescNodes(n, pre) ==
 \* every node value occurs once: results can be matched to locations by value
 Distinct(root) == LET ns == DescNodes(root, <<>>) IN \A i, j \in 1..Len(ns) : i < j => ns[i].n # ns[j].n
 
+\* the longest array or object (collections that are Keyed and Indexed take slices over their members)
+MaxLenAll(root) == LET ns == DescNodes(root, <<>>) IN
+                   LET ls == {IF IsArr(ns[i].n) THEN Len(ns[i].n.a) ELSE IF IsObj(ns[i].n) THEN Len(ns[i].n.o) ELSE 0 : i \in 1..Len(ns)} IN
+                   CHOOSE m \in ls : \A x \in ls : x <= m
 MaxArrLen(root) == LET ns == DescNodes(root, <<>>) IN
                    LET ls == {IF IsArr(ns[i].n) THEN Len(ns[i].n.a) ELSE 0 : i \in 1..Len(ns)} IN
                    CHOOSE m \in ls : \A x \in ls : x <= m
@@ -284,6 +288,75 @@ BindF(f, root) == IF f.f = "filter" /\ f.op = "mr"
                   ELSE f
 Bind(path, root) == [i \in 1..Len(path) |-> BindF(path[i], root)]
 Locs(path, root) == LocsR(Bind(path, root), root, <<>>, <<>>, root)
+\* ------------------------------------------------------------------ collections that are Keyed AND Indexed (C11)
+(* An ordered map that implements both jp.Keyed and jp.Indexed holds an object whose members are reachable by name and by *)
+(* position (position = rank of the key; the harness builds it in sorted key order).  Under that reading (bi = TRUE) an    *)
+(* index, a slice and the integer members of a union apply to an object as they apply to the array of its member values;   *)
+(* the location of a member is always its KEY step (one location per member).  Everything else is Kids.  The statement     *)
+(* does not say in which order a wildcard or filter visits such a collection: free, as for every object.                   *)
+AsArr(n) == [a |-> n.o]
+KeyKid(n, k) == Kid(KStep(n.k[k.s.i + 1]), k.n, k.o, k.r)
+Kids2(f, n, bi) ==
+  IF ~(bi /\ IsObj(n)) THEN Kids(f, n)
+  ELSE CASE f.f \in {"nth", "slice"} -> LET ks == Kids(f, AsArr(n)) IN [j \in 1..Len(ks) |-> KeyKid(n, ks[j])]
+         [] f.f = "union" -> FlatMap(LAMBDA j : LET u == f.items[j] IN
+                                        IF IsK(u) THEN (IF HasKey(n, u.k) THEN << Kid(KStep(u.k), Member(n, u.k), TRUE, j) >> ELSE <<>>)
+                                        ELSE (IF InRange(u.i, AsArr(n)) THEN << KeyKid(n, NthKid(u.i, AsArr(n), j)) >> ELSE <<>>),
+                                     [j \in 1..Len(f.items) |-> j])
+         [] OTHER -> Kids(f, n)
+
+\* ------------------------------------------------------------------ Go structs: the as-implemented reading of known defect C11-3
+(* md = [bi, si, cls].  si names which objects the representation holds as Go structs: "m" the tag-menu struct M (key set   *)
+(* A,B,C,D,Emb; its member Emb {E} is the embedded struct), "s" the structs S1..S3 (key sets a / a,b / a,b,c), "none".        *)
+(* With si = "none" LocsX is the statement's selection (Locs, or the Keyed+Indexed reading when bi).  With si # "none" it is  *)
+(* the SECOND reading, a transcription of what ojg does with structs today (C11-3), used ONLY to classify a deviation as the  *)
+(* known defect when the observation equals it exactly - never to accept a result:                                           *)
+(*   every evaluator   a filter applied to a struct selects nothing (Script.evalWithRoot has no struct arm);                  *)
+(*   cls = "F" (First, FirstFound, Has)   a wildcard over a struct that is not the last fragment follows only the LAST        *)
+(*                     exported field (reflectGetWildOne), and a descent does not go below a struct; cls = "F1": the same,  *)
+(*                     except that a struct at which a descent STARTS is opened one level (First's stack machine pushes     *)
+(*                     the reflected members of the start node).  An observation of First / FirstFound / Has is the known   *)
+(*                     defect when it equals the F, the F1 or the F0 selection (F0: a descent does not even apply the rest   *)
+(*                     of the path to a struct node itself - Has on `$..*` over a struct).                                   *)
+(* Members of a struct are all its exported fields, the one tagged json:"-" included, in every evaluator (the statement is    *)
+(* silent on tags; the harness declares the abstract object that way), so a wildcard / descent / child / union over a struct  *)
+(* is judged like over any object.                                                                                          *)
+MKeySeq == <<"A", "B", "C", "D", "Emb">>
+IsSt(n, md) == IsObj(n) /\ (CASE md.si = "m" -> n.k = MKeySeq \/ n.k = <<"E">>
+                              [] md.si = "s" -> n.k \in {<<"a">>, <<"a", "b">>, <<"a", "b", "c">>}
+                              [] OTHER -> FALSE)
+KidsX(f, n, md, last) ==
+  IF IsSt(n, md) THEN
+    CASE f.f = "filter" -> <<>>
+      [] f.f = "wild" /\ md.cls \in {"F", "F1", "F0"} /\ ~last -> LET ks == Kids(f, n) IN IF ks = <<>> THEN <<>> ELSE << ks[Len(ks)] >>
+      [] OTHER -> Kids(f, n)
+  ELSE Kids2(f, n, md.bi)
+RECURSIVE DescNodesX(_, _, _)
+DescNodesX(n, pre, md) ==
+  << [loc |-> pre, n |-> n] >> \o
+  (IF IsArr(n) THEN FlatMap(LAMBDA i : DescNodesX(n.a[i], Append(pre, IStep(i - 1)), md), [i \in 1..Len(n.a) |-> i])
+   ELSE IF IsObj(n) /\ ~(md.cls \in {"F", "F1", "F0"} /\ IsSt(n, md)) THEN FlatMap(LAMBDA i : DescNodesX(n.o[i], Append(pre, KStep(n.k[i])), md), [i \in 1..Len(n.o) |-> i])
+   ELSE <<>>)
+\* cls "F1": as "F", but a struct that is the START node of a descent is opened (its members are visited; structs below stay closed)
+DescTopX(n, pre, md) ==
+  IF md.cls = "F1" /\ IsSt(n, md)
+  THEN << [loc |-> pre, n |-> n] >> \o FlatMap(LAMBDA i : DescNodesX(n.o[i], Append(pre, KStep(n.k[i])), md), [i \in 1..Len(n.o) |-> i])
+  ELSE IF md.cls = "F0" THEN SelectSeq(DescNodesX(n, pre, md), LAMBDA d : ~IsSt(d.n, md))
+  ELSE DescNodesX(n, pre, md)
+RECURSIVE LocsRX(_, _, _, _, _, _)
+LocsRX(path, n, pre, oks, root, md) ==
+  IF path = <<>> THEN << [loc |-> pre, val |-> n, ok |-> oks] >>
+  ELSE LET f == Head(path)
+           rest == Tail(path)
+       IN CASE f.f = "root" -> LocsRX(rest, root, <<>>, <<>>, root, md)
+            [] f.f \in {"at", "bracket"} -> LocsRX(rest, n, pre, oks, root, md)
+            [] f.f = "desc" -> FlatMap(LAMBDA d : LocsRX(rest, d.n, d.loc,
+                                                         oks \o [j \in 1..(Len(d.loc) - Len(pre)) |->
+                                                                   LET st == d.loc[Len(pre) + j] IN IF IsK(st) THEN [o |-> FALSE, r |-> 0] ELSE [o |-> TRUE, r |-> st.i]],
+                                                         root, md), DescTopX(n, pre, md))
+            [] OTHER -> FlatMap(LAMBDA k : LocsRX(rest, k.n, Append(pre, k.s), Append(oks, [o |-> k.o, r |-> k.r]), root, md), KidsX(f, n, md, rest = <<>>))
+LocsX(path, root, md) == LocsRX(Bind(path, root), root, <<>>, <<>>, root, md)
+Locs2(path, root, bi) == IF bi THEN LocsX(path, root, [bi |-> TRUE, si |-> "none", cls |-> "G"]) ELSE Locs(path, root)
 Vals(E) == [i \in 1..Len(E) |-> E[i].val]
 LocsOnly(E) == [i \in 1..Len(E) |-> E[i].loc]
 Get(path, root) == Vals(Locs(path, root))
@@ -351,6 +424,11 @@ JudgeGet(path, root, got, distinct) ==
   ELSE
     LET j1 == JudgeAgainst(E, got, path, distinct) IN
     IF j1 # "ok" /\ UnionDup(path) THEN Better(j1, JudgeAgainst(Dedup(E), got, path, distinct)) ELSE j1
+
+\* the same verdict against a given selection E (paths not ending in a bare descent), De = the selection without repeated locations
+JudgeSel(E, path, got, distinct) ==
+  LET j1 == JudgeAgainst(E, got, path, distinct) IN
+  IF j1 # "ok" /\ UnionDup(path) THEN Better(j1, JudgeAgainst(Dedup(E), got, path, distinct)) ELSE j1
 
 \* the order of Get's result is completely fixed by the statement
 OrderDefined(E, path) == ~HasDesc(path) /\ \A i \in 1..Len(E) : \A p \in 1..Len(E[i].ok) : E[i].ok[p].o
